@@ -71,9 +71,11 @@ Offs(conn) == IF conn = 8 THEN << <<-1,-1>>, <<0,-1>>, <<1,-1>>, <<-1,0>>, <<1,0
               ELSE << <<0,-1>>, <<-1,0>>, <<1,0>>, <<0,1>> >>
 
 \* _heuristic: euclidean pixel distance to the goal, as its square n (h = sqrt n)
-\* (negative twin "manhattan": h = |dy| + |dx|, not admissible under 8-connectivity)
-HN(e, i) == LET dy == Abs(Row(e, i) - e.gy)  dx == Abs(Col(e, i) - e.gx) IN
-            IF e.mut = "manhattan" THEN (dy + dx) * (dy + dx) ELSE dy * dy + dx * dx
+\* (negative twin "hsquared": the sqrt forgotten, h = dy^2 + dx^2, not admissible.  Milder inadmissible
+\* heuristics -- Manhattan under 8-connectivity, 2 * euclid -- were found by TLC to be harmless on every
+\* layout of the 3x3 (and Manhattan up to 2x5) grid; they are caught on the larger mazes of T.)
+HN(e, i) == LET dy == Abs(Row(e, i) - e.gy)  dx == Abs(Col(e, i) - e.gx)  n == dy * dy + dx * dx IN
+            IF e.mut = "hsquared" THEN n * n ELSE n
 
 \* _distance(px, py, neighbor_x, neighbor_y) for one offset
 StepCost(e, o) == IF o[1] # 0 /\ o[2] # 0 THEN (IF e.mut = "diag1" THEN <<1, 0>> ELSE <<0, 1>>) ELSE <<1, 0>>
